@@ -9,7 +9,7 @@ LEVEL_NAMES = {
     "g": ["g1", "g2", "g3", "g4"],
     "h": ["hx", "hy", "hz", "hw"],
     "f2": ["p", "q", "r", "s"],
-    "k": [10, 20, 30, 40],
+    "k": [9, 10, -2, 30],  # string order differs from numeric order
 }
 
 
